@@ -1,0 +1,31 @@
+// SPDX-FileCopyrightText: 2026 The Pion community <https://pion.ly>
+// SPDX-License-Identifier: MIT
+
+//go:build verif && verif_c04 && !js
+
+package webrtc
+
+// VerifOpsQuiesce blocks until the operations queue is empty and its worker
+// goroutine has ended, including the re-check it makes when
+// updateNegotiationNeededFlagOnEmptyChain is set (which Done() does not wait for).
+func (pc *PeerConnection) VerifOpsQuiesce() {
+	for {
+		pc.ops.mu.Lock()
+		busy := pc.ops.busyCh
+		pc.ops.mu.Unlock()
+		if busy == nil {
+			return
+		}
+		<-busy
+	}
+}
+
+// VerifNegotiationNeededFlag reads the [[NegotiationNeeded]] slot.
+func (pc *PeerConnection) VerifNegotiationNeededFlag() bool {
+	return pc.isNegotiationNeeded.Load()
+}
+
+// VerifIsClosed reads the [[IsClosed]] slot.
+func (pc *PeerConnection) VerifIsClosed() bool {
+	return pc.isClosed.Load()
+}
